@@ -119,7 +119,7 @@ def run(ctx):
         m, info, objno, multi, fmt, accmode, kobj, kmulti = case
         n, _, _ = nl.normalize(m)
         return judge(n, info, objno, multi, fmt, accmode, kobj, kmulti, res)
-    res = hyp.run_property(ctx, cases(), check, ctx.pick(2400, 60000), known_keys=known, time_budget=ctx.pick(300, 3600))
+    res = hyp.run_property(ctx, cases(), check, ctx.pick(2400, 60000), known_keys=known, time_budget=ctx.pick(300, 900))
     return common.finish(ctx, res, "exploration", RULE, c01.ASSUME + ["option names objno/obj:no and multiobj/obj:multi are synonyms"])
 
 
